@@ -16,3 +16,7 @@ package kv
 //@   ensures  SpecCounterVal[c] == old(SpecCounterVal[c]) + delta && n == SpecCounterVal[c]
 //@   ensures  forall x *AtomicInt64Counter :: x != c ==> SpecCounterVal[x] == old(SpecCounterVal[x])
 //@   modifies SpecCounterVal
+
+//@ # WithTx is executed in place at its call sites (the closure runs on the opened transaction);
+//@ # OpenTx/Commit/Close are engine calls outside the subset: their results are unconstrained
+//@ inline func WithTx(ctx context.Context, db DB, f func(tx Tx) error) (err error)
